@@ -13,8 +13,9 @@ must match exactly, otherwise the generator fails closed (AnchorError).  Besides
 does (append to the buffer; the top-level white-space test of the source-tree builder), what processAccumulatedText()
 does, where append() / doAppendChildNode() attach a node (current element, else fragment, else document), the
 namespace-aware creation calls, which of the two recorded variants of FormatterToSourceTree::cdata() is in the tree
-(no-op = finding K-C05t-1, or characters(ch, length) = the proposed repair), and the marker processing instruction of
-charactersRaw()."""
+(no-op = finding K-C05t-1, or characters(ch, length) = the proposed repair), the marker processing instruction of
+charactersRaw(), and for the document-order indexes of the source tree: the first index, one index per created node,
+the element before its attributes, and whether startElement() creates the element after the flush."""
 import re
 import srcfacts
 from srcfacts import AnchorError, need, read, strip_comments, function_body
@@ -157,8 +158,23 @@ def gen_targets():
         "comment": "XalanSourceTreeComment*consttheNewComment=m_document->createCommentNode(data,length(data),m_currentElement);" + (append5 % "theNewComment"),
         "cdata": None,
     }
+    create_el = "XalanSourceTreeElement*consttheNewElement=createElementNode(name,attrs,m_currentElement);"
+    link_el = ((append5 % "theNewElement") +
+               "m_elementStack.push_back(theNewElement);m_lastChildStack.push_back(m_lastChild);m_currentElement=theNewElement;m_lastChild=0;")
     for ev in EVENTS:
         b = _method(fs, S, ev)[1:-1]
+        if ev == "startElement":
+            # the element node takes its document-order index when it is CREATED: flush, create, link (as shipped) or
+            # create, flush, link (the text node made by the flush then gets a larger index than the element it precedes)
+            if b == FLUSH + create_el + link_el:
+                facts["s_flush_startElement"], facts["s_element_created_after_flush"] = True, True
+            elif b == create_el + FLUSH + link_el:
+                facts["s_flush_startElement"], facts["s_element_created_after_flush"] = True, False
+            elif b == create_el + link_el:
+                facts["s_flush_startElement"], facts["s_element_created_after_flush"] = False, True
+            else:
+                raise AnchorError(S + "::startElement: not one of the modelled shapes ([flush] create link / create flush link): %r" % b[:200])
+            continue
         if ev == "endDocument":
             # the flush of endDocument() is conditional: fragment mode only
             if b == "if(m_documentFragment!=0){processAccumulatedText();}m_elementStack.pop_back();":
@@ -247,6 +263,28 @@ def gen_targets():
             raise AnchorError("XalanSourceTreeDocument::%s: namespace declarations are no longer created before the other attributes" % what)
     ct = _norm(function_body(sd, r"XalanSourceTreeDocument::createTextNode\s*\(", "XalanSourceTreeDocument::createTextNode"))
     need(re.escape("if(isXMLWhitespace(chars,0,length)==true)"), ct, "createTextNode: a white-space-only text is a TextIWS node (same node kind)")
+    # document-order indexes: one m_nextIndexValue++ per created node, the element before its attributes
+    vals = set(re.findall(r"m_nextIndexValue\s*\(\s*(\d+)\s*\)", sd))
+    if len(vals) != 1:
+        raise AnchorError("XalanSourceTreeDocument: m_nextIndexValue initialisers not found or not unique: %r" % sorted(vals))
+    facts["st_first_index"] = int(vals.pop())
+    for sig, what, n in ((r"XalanSourceTreeDocument::createCommentNode\s*\(", "createCommentNode", 1),
+                         (r"XalanSourceTreeDocument::createProcessingInstructionNode\s*\(", "createProcessingInstructionNode", 1),
+                         (r"XalanSourceTreeDocument::createTextNode\s*\(", "createTextNode", 2),
+                         (r"XalanSourceTreeDocument::createTextIWSNode\s*\(", "createTextIWSNode", 1)):
+        body = _norm(function_body(sd, sig, "XalanSourceTreeDocument::" + what))
+        if body.count("m_nextIndexValue++") != n or body.count("m_nextIndexValue") != n:
+            raise AnchorError("XalanSourceTreeDocument::%s: does not take exactly one index (m_nextIndexValue++) per created node" % what)
+    ce1 = _norm(function_body(sd, r"XalanSourceTreeDocument::createElementNode\s*\(\s*const\s+XalanDOMChar\s*\*\s*name\s*,\s*const\s+AttributeListType", "createElementNode(name, attrs, ...)"))
+    i1, i2 = ce1.find("m_nextIndexValue++"), ce1.find("createAttributes(")
+    if not (0 <= i1 < i2) or "fAddXMLNamespaceAttribute=false" not in _norm(read("XalanSourceTree/XalanSourceTreeDocument.hpp")):
+        raise AnchorError("createElementNode(name, attrs, ...): the element no longer takes its index before its attributes / default of fAddXMLNamespaceAttribute")
+    ce2 = _norm(function_body(sd, r"XalanSourceTreeDocument::createElementNode\s*\(\s*const\s+XalanDOMChar\s*\*\s*tagName\s*,\s*const\s+AttributeListType", "createElementNode(tagName, attrs, resolver, ...)"))
+    i1, i2 = ce2.find("createElementNode(tagName,theAttributeVector"), ce2.find("createAttributes(")
+    if not (0 <= i1 < i2):
+        raise AnchorError("createElementNode(tagName, attrs, resolver, ...): the element is no longer created before its attributes")
+    if ca.count("m_nextIndexValue++") != 3:
+        raise AnchorError("createAttributes(AttributeList): not one index per attribute in each of its three branches")
     facts["pi_marker_target"] = _chars(fl, "s_piTarget")
     facts["pi_marker_data"] = _chars(fl, "s_piData")
 
@@ -262,6 +300,8 @@ def gen_targets():
         else:
             text += "Definition s_flush_%s : bool := %s.\n" % (ev, _b(facts["s_flush_" + ev]))
     text += "Definition s_cdata_is_characters : bool := %s.\n" % _b(facts["s_cdata_is_characters"])
+    text += "Definition s_element_created_after_flush : bool := %s.\n" % _b(facts["s_element_created_after_flush"])
+    text += "Definition st_first_index : N := %d%%N.\n" % facts["st_first_index"]
     for k in ("pi_marker_target", "pi_marker_data", "xmlns_uri", "xmlns_name", "xmlns_with_sep"):
         text += "Definition %s : list N := [%s]%%N.\n" % (k, "; ".join(str(c) for c in facts[k]))
     return text, facts
